@@ -100,6 +100,25 @@ def rp(b, t, _depth=0):
     return p
 
 
+LOOKUP = r"::(find|position|get|find_map|binary_search\w*)$"
+
+
+def absent_guard(term, vals):
+    """the guard says `the looked-up entry does not exist`, in any of the forms maintainers write:
+    `x.is_none()`, `!x.is_some()` (guard clause), `match x { None => .. }` / let-else, `!list.iter().any(..)`, `!list.contains(..)`"""
+    atom, truth = mir.cond_atoms(term, vals)
+    dv = mir.discr_variants(term, vals)
+    if atom[0] == "call" and atom[1].endswith("Option::is_none") and truth is True:
+        return True
+    if atom[0] == "call" and atom[1].endswith("Option::is_some") and truth is False:
+        return True
+    if dv and dv[1] == ["None"] and mir.has_call(dv[0], LOOKUP) is not None:
+        return True
+    if atom[0] == "call" and re.search(r"::(any|contains|contains_key)$", atom[1]) and truth is False:
+        return True
+    return False
+
+
 def decisions(P, b):
     out = []
     for bi, t in b.calls_to(rights.DECISIONS):
@@ -190,11 +209,7 @@ def run(P, C, tier):
                 g = b.guards(bi, expand_vars=True)
                 absent = False
                 for s, vals, term in g:
-                    atom, truth = mir.cond_atoms(term, vals)
-                    dv = mir.discr_variants(term, vals)
-                    if atom[0] == "call" and atom[1].endswith("Option::is_none") and truth is True and mir.has_call(atom, r"::find$"):
-                        absent = True
-                    if dv and dv[1] == ["None"] and mir.has_call(dv[0], r"::find$"):
+                    if absent_guard(term, vals):
                         absent = True
                 ok = absent
                 det += "; under `find(..) is None`: %s" % absent
@@ -265,7 +280,7 @@ def run(P, C, tier):
             if (d["user"].startswith("new.node") and b is ah) or (d["user"].startswith("new.auth_nodes.[find].node") and b is rh):
                 continue   # the decision on the updated group row itself (not a new entry of a list)
             g = b.guards(d["block"], expand_vars=True)
-            absent = any(mir.cond_atoms(term, vals)[0][0] == "call" and mir.cond_atoms(term, vals)[0][1].endswith("Option::is_none") and mir.cond_atoms(term, vals)[1] is True for s, vals, term in g)
+            absent = any(absent_guard(term, vals) for s_, vals, term in g)
             C.ob("R2", "%s:only-new:%s:%s" % (mir.short(b.id).split("::")[-1], list_of(d["user"]), d["pred"]), absent, d["loc"], "the entitlement test is applied to entries absent from the stored definition")
     # prepare_room_node dispatches: known room -> merge; unknown room -> prepare_new_room
     try:
